@@ -45,6 +45,23 @@ func checkC08(c *Ctx) Meta {
 		})
 		if ok, _ := unreachableWhenCut(g, boolEdgeCut(tests, true), apps); len(tests) > 0 && len(apps) > 0 && ok {
 			c.OK("C08-FILTER", key, c.Pos(g.Pos()), "append only behind template.PassBinding(proof)")
+		} else if pred, elem := predicateFilterForm(g); pred != nil && predicateIs(pred, func(v ssa.Value) bool {
+			cl, isCall := v.(*ssa.Call)
+			if !isCall || len(cl.Call.Args) == 0 {
+				return false
+			}
+			// PassBinding is a func-typed field of the template
+			_, fname, _, isF := fieldOfValue(cl.Call.Value)
+			if !(isF && fname == "PassBinding") && callName(cl) != "PassBinding" {
+				return false
+			}
+			a0 := cl.Call.Args[len(cl.Call.Args)-1]
+			if mi, isMI := a0.(*ssa.MakeInterface); isMI {
+				a0 = mi.X
+			}
+			return a0 == ssa.Value(elem) || sameOriginValue(pred, a0, ssa.Value(elem))
+		}) {
+			c.OK("C08-FILTER", key, c.Pos(g.Pos()), "a generic filter keeps an element only where its predicate says so, and the predicate is template.PassBinding(element)")
 		} else {
 			c.Bad("C08-FILTER", key, c.Pos(g.Pos()), "a proof is kept on a path where PassBinding is not known to be true")
 		}
@@ -444,7 +461,7 @@ func checkBestProof(c *Ctx, f *ssa.Function) {
 							continue
 						}
 						// e is the loop index assigned under the `quality.Cmp(best) > 0` test
-						for _, t := range cmpTests(f, func(bo *ssa.BinOp) bool {
+						for _, t := range cmpTests(phi.Parent(), func(bo *ssa.BinOp) bool {
 							cmp, isCall := bo.X.(*ssa.Call)
 							return bo.Op == token.GTR && isCall && calleeID(cmp) == "(*math/big.Int).Cmp"
 						}) {
@@ -1139,4 +1156,98 @@ func checkNoCopiedReceiver(c *Ctx, rule string, pkgs []string) {
 	} else {
 		c.OK(rule, key, "", fmt.Sprintf("%d method values examined, none binds a mutable struct by value", n))
 	}
+}
+
+// predicateFilterForm: g filters through a helper the reference tree does not have, handing it a predicate:
+// g calls H(…, K) where K is a function literal (or function) returning bool, and inside H every append lies
+// behind the true edge of a call of H's function parameter. Returns K and K's element parameter (the first
+// parameter of K), or nil.
+func predicateFilterForm(g *ssa.Function) (*ssa.Function, *ssa.Parameter) {
+	var outK *ssa.Function
+	allInstrsShallow(g, func(in ssa.Instruction) {
+		cl, ok := in.(*ssa.Call)
+		if !ok {
+			return
+		}
+		h := cl.Call.StaticCallee()
+		if h == nil || !gNewFuncs[h] || len(h.Blocks) == 0 {
+			return
+		}
+		for i, a := range cl.Call.Args {
+			var k *ssa.Function
+			switch x := a.(type) {
+			case *ssa.MakeClosure:
+				k, _ = x.Fn.(*ssa.Function)
+			case *ssa.Function:
+				k = x
+			}
+			if k == nil || len(k.Params) == 0 || k.Signature.Results().Len() != 1 || i >= len(h.Params) {
+				continue
+			}
+			if b, isB := k.Signature.Results().At(0).Type().Underlying().(*types.Basic); !isB || b.Info()&types.IsBoolean == 0 {
+				continue
+			}
+			par := h.Params[i]
+			var tests []boolTest
+			var apps []ssa.Instruction
+			allInstrsShallow(h, func(in2 ssa.Instruction) {
+				if c2, isC := in2.(*ssa.Call); isC {
+					if c2.Call.Value == ssa.Value(par) {
+						tests = append(tests, boolTestsOf(h, c2)...)
+					}
+					if calleeID(c2) == "builtin.append" {
+						apps = append(apps, c2)
+					}
+				}
+			})
+			if len(tests) == 0 || len(apps) == 0 {
+				continue
+			}
+			if ok, _ := unreachableWhenCut(h, boolEdgeCut(tests, true), apps); ok {
+				outK = k
+			}
+		}
+	})
+	if outK == nil {
+		return nil, nil
+	}
+	return outK, outK.Params[0]
+}
+
+// predicateIs: every return of the predicate k hands back the test itself (is(v)), the constant false, or the
+// constant true on a path that lies behind the true edge of the test.
+func predicateIs(k *ssa.Function, is func(v ssa.Value) bool) bool {
+	rets := returnsOf(k)
+	if len(rets) == 0 {
+		return false
+	}
+	var tests []boolTest
+	allInstrsShallow(k, func(in ssa.Instruction) {
+		if v, ok := in.(ssa.Value); ok && is(v) {
+			tests = append(tests, boolTestsOf(k, v)...)
+		}
+	})
+	for _, ret := range rets {
+		if len(ret.Results) != 1 {
+			return false
+		}
+		okRet := false
+		valueOrigins(k, ret.Results[0], func(r ssa.Value) {})
+		switch x := ret.Results[0].(type) {
+		case *ssa.Const:
+			if x.Value != nil && x.Value.String() == "false" {
+				okRet = true
+			} else if len(tests) > 0 {
+				if ok, _ := unreachableWhenCut(k, boolEdgeCut(tests, true), []ssa.Instruction{ret}); ok {
+					okRet = true
+				}
+			}
+		default:
+			okRet = is(ret.Results[0])
+		}
+		if !okRet {
+			return false
+		}
+	}
+	return true
 }
